@@ -43,9 +43,10 @@ pub fn judge_with<A: Attr>(rep: &mut Report, p: &[[f32; 3]; 3], a: &[[f32; MAXC]
     let area = geo::tri_area2(&v).abs() * 0.5;
     if !(area > 1e-6) {
         rep.skip("area<=1e-6px2 (outside the property's domain)");
-        // still must not panic
-        if let Err(m) = fill::<A>(p, a, false) {
-            rep.violation("raster.panic", format!("tri_fill panicked on a degenerate triangle: {m}"), cj::<A>(p, a));
+        // outside this property's domain (C02/C04 decide totality): a panic
+        // here is recorded, not judged
+        if fill::<A>(p, a, false).is_err() {
+            rep.count("degenerate_input.tri_fill_panicked(outside the domain, not judged)");
         }
         return;
     }
@@ -231,8 +232,23 @@ pub fn gen_case<A: Attr>(rng: &mut Rng, ext: f32) -> ([[f32; 3]; 3], [[f32; MAXC
     // per component: independent values, or ties between vertices (flat
     // colour, alpha = 1, a shared edge value), or zeros of either sign
     let tie: [u64; MAXC] = std::array::from_fn(|_| rng.below(12));
+    // reciprocal depths: independent, or all equal but not 1 (a screen-parallel
+    // quad at depth 5: an "affine fast path" must still divide), or two equal
+    let wtie = rng.below(8);
+    let w0 = wbase * rng.f32_in(1.0, 10.0);
+    let mut ws = [0.0f32; 3];
     for i in 0..3 {
-        let w = if persp { wbase * rng.f32_in(1.0, 10.0) } else { 1.0 };
+        let w = if !persp {
+            1.0
+        } else {
+            match (wtie, i) {
+                (0, _) => w0,
+                (1, 1) => ws[0],
+                (1, 0) => w0,
+                _ => wbase * rng.f32_in(1.0, 10.0),
+            }
+        };
+        ws[i] = w;
         p[i] = [xy[i][0], xy[i][1], 1.0 / w];
         for c in 0..A::N {
             let val = off + amp * rng.f32_in(-1.0, 1.0);
@@ -262,6 +278,9 @@ fn one<A: Attr>(rng: &mut Rng, rep: &mut Report, idx: u64) {
     h.bytes(A::NAME.as_bytes());
     rep.case(h.get(), true);
     rep.count(if persp { "w.varying_up_to_10:1" } else { "w.all_one(affine)" });
+    if p[0][2] == p[1][2] && p[1][2] == p[2][2] && p[0][2] != 1.0 {
+        rep.count("w.constant_over_the_triangle_but_not_one");
+    }
     if p.iter().any(|v| v[2] < 1e-6) {
         rep.count("w.reciprocal_depth_below_1e-6");
     }
@@ -459,5 +478,6 @@ pub fn run(cfg: &Cfg, rep: &mut Report) {
     rep.floor("shape.flat_top_or_bottom", 2_000);
     rep.floor("w.varying_up_to_10:1", 50_000);
     rep.floor("w.reciprocal_depth_below_1e-6", 50_000);
+    rep.floor("w.constant_over_the_triangle_but_not_one", 20_000);
     rep.floor("w.reciprocal_depth_above_1e4", 20_000);
 }
